@@ -929,6 +929,13 @@ class Engine:
                     if entry.known(t.app(tester, t.BOOL, v0.t)) is True:
                         head.assume(t.app(tester, t.BOOL, v1.t))
                         stable.append((name, tester))
+        # adversarial streams: 'no short read/write has been silently accepted so far' is carried through every loop
+        shorts = []
+        for loc, o0 in entry.store.items():
+            o1 = head.store.get(loc)
+            if isinstance(o0, OStream) and o0.model == 'adv' and isinstance(o1, OStream) and o1.extra['__short'].t.smt() != o0.extra['__short'].t.smt():
+                head.assume(t.implies(t.not_(o0.extra['__short'].t), t.not_(o1.extra['__short'].t)))
+                shorts.append((loc, o0.extra['__short'].t))
         out = []
         # 3. evaluate guard
         if it is None:
@@ -970,6 +977,10 @@ class Engine:
                                 if isinstance(vv, VInt) and tester == 'isint':
                                     goal = t.TRUE
                                 self.emit(st2, '%s/loop[%s]/preserve/type-of-%s' % (fname, text, name), goal, kind='loop-preserve', tags=spec.tags)
+                            for loc, s0 in shorts:
+                                o2 = st2.store.get(loc)
+                                self.emit(st2, '%s/loop[%s]/preserve/no-silent-short-io' % (fname, text), t.implies(t.not_(s0), t.not_(o2.extra['__short'].t)),
+                                          kind='loop-preserve', tags=('C06',))
                             if var0 is not None:
                                 var2 = spec.variant(v2)
                                 self.emit(st2, '%s/loop[%s]/variant' % (fname, text), t.and_(t.ge(var0, t.ZERO), t.lt(var2, var0)),
